@@ -68,15 +68,48 @@ def begin_lines(c, label, pre=None):
     return L
 
 
+def split_blocks(lines):
+    blocks, cur, depth = [], [], 0
+    for l in lines:
+        cur.append(l)
+        depth += l.count("{") - l.count("}")
+        if depth == 0:
+            blocks.append(cur); cur = []
+    if cur:
+        blocks.append(cur)
+    return blocks
+
+
+def reordered_config(c):
+    """the same configuration with its (named) biases defined in the opposite order"""
+    blocks = split_blocks(list(c["config"]))
+    cvs = [b for b in blocks if b[0].startswith("colvar ")]
+    rest = [b for b in blocks if not b[0].startswith("colvar ")]
+    if len(rest) < 2 or any(not any(l.strip().startswith("name ") for l in b) for b in rest):
+        return list(c["config"])
+    return [l for b in cvs + rest[::-1] for l in b]
+
+
+REJECTED = ["config EOF", "harmonic {", "  name rejected", "  colvars no_such_variable", "  forceConstant 1.0", "  centers 0.0", "}", "EOF"]
+
+
 def plan(c):
     return ([("U",)] + [("AB", K, fmt) for K in c["Ks"] for fmt in c["fmts"]] + [("Q", K) for K in c.get("auto_Ks", [])]
+            + [("E", K) for K in c.get("reject_Ks", [])]
             + [("M", K, fmt) for K, fmt in c.get("buffer_Ks", [])] + [("C", K1, K2, fmt) for K1, K2, fmt in c.get("chain_Ks", [])]
             + [("R", K) for K in c.get("boundary_Ks", [])])
 
 
 def auto_freq(c, K):
     """restart frequency that makes the module write its automatic restart file at step index K (and not later)"""
-    return c.get("it0", 0) + K
+    n = c.get("it0", 0) + K
+    if n < 2 ** 31:
+        return n
+    # the engine's restart frequency is an int: a small divisor of the step (the file of step K overwrites earlier ones)
+    for f in (12, 7, 6, 5, 3, 2):
+        if n % f == 0:
+            return f
+    return 1
 
 
 def scenario(c, d, runs=None):
@@ -133,6 +166,17 @@ def scenario(c, d, runs=None):
             for t in range(K2, T):
                 L += step_lines(c, t)
             L += ["save text %sC3_%s.colvars.state" % (pre, lab)]
+        elif run[0] == "E":
+            # the resumed job defines its (named) biases in the opposite order and has a configuration rejected
+            # (a bias on a variable that does not exist) before it loads the text state of the A run
+            K = run[1]
+            c2 = dict(c); c2["config"] = reordered_config(c)
+            L += begin_lines(c2, "E_%d" % K, pre)
+            L += REJECTED
+            L += ["load %sa_%d_text" % (pre, K)]
+            for t in range(K, T):
+                L += step_lines(c, t)
+            L += ["save text %sE_%d.colvars.state" % (pre, K)]
         elif run[0] == "M":
             # the state travels as a buffer in memory (checkpoint of the engine, `cv savetostring`), not as a file
             _, K, fmt = run
